@@ -64,6 +64,17 @@ DIRECTED = {
         {"s": "C", "c": C("NOOP")}, {"s": "C", "c": C(k, uid=u, arg="star", mb="inbox")}, {"s": "C", "c": C("SELECT", mb="inbox")}]
        for k, u in (("FETCH", False), ("FETCHBODY", True), ("STORE", False), ("SEARCHSET", False), ("COPY", True), ("MOVE", False),
                     ("EXPUNGE", False), ("UIDEXPUNGE", True), ("CLOSE", False), ("CHECK", False), ("IDLE", False), ("UNSELECT", False))},
+    # ... and the command is already waiting in the mailbox's queue when the DELETE shuts the mailbox down (it is
+    # released and refused inside whatever block it was going to run in), then the session goes on
+    **{f"queued_behind_delete_{k.lower()}{'_uid' if u else ''}": [
+        {"s": "B", "c": C("CREATE", mb="a")}, {"s": "B", "c": C("APPEND", mb="a")}, {"s": "B", "c": C("APPEND", mb="a")},
+        {"s": "A", "c": C("SELECT", mb="a")}, {"s": "C", "c": C("SELECT", mb="a")},
+        {"par": [{"s": "B", "c": C("DELETE", mb="a")}, {"s": "A", "c": C(k, uid=u, arg="inrange", mb="inbox")},
+                 {"s": "C", "c": C("NOOP")}]},
+        {"s": "A", "c": C("NOOP")}, {"s": "A", "c": C("SELECT", mb="inbox")}, {"s": "A", "c": C("FETCH", arg="inrange")},
+        {"s": "C", "c": C("NOOP")}, {"s": "C", "c": C("SELECT", mb="inbox")}]
+       for k, u in (("EXPUNGE", False), ("UIDEXPUNGE", True), ("MOVE", False), ("COPY", False), ("FETCH", False),
+                    ("STORE", False), ("CLOSE", False), ("CHECK", False), ("SEARCHSET", False))},
     "selected_mailbox_renamed_then_commands": [
         {"s": "B", "c": C("CREATE", mb="a")}, {"s": "B", "c": C("APPEND", mb="a")}, {"s": "A", "c": C("SELECT", mb="a")},
         {"s": "B", "c": C("RENAME", mb="a", mb2="b")}, {"s": "A", "c": C("FETCH", arg="inrange")}, {"s": "A", "c": C("STORE", arg="inrange")},
